@@ -74,6 +74,9 @@ class Cloner:
         self._post_process = post_process
         self._resolve_ref_attrs = resolve_ref_attrs
         self._allow_outer_scope_values = allow_outer_scope_values
+        # Every node created by this cloner, in creation order. Used to detach the nodes of a
+        # graph whose cloning fails from the values they use.
+        self._created_nodes: list[_core.Node] = []
 
     @_capture_error_context
     def _get_value(self, value: _core.Value) -> _core.Value | None:
@@ -205,6 +208,7 @@ class Cloner:
             metadata_props=new_metadata,
             device_configurations=node.device_configurations,
         )
+        self._created_nodes.append(new_node)
         if node.meta:
             self.clone_meta(node.meta, new_node.meta, deep_copy=deep_copy)
 
@@ -267,6 +271,21 @@ class Cloner:
         self, graph: _core.Graph | _core.GraphView, deep_copy: bool = False
     ) -> _core.Graph:
         """Clones a graph with shared TensorProtocols."""
+        first_new_node = len(self._created_nodes)
+        try:
+            return self._clone_graph(graph, deep_copy=deep_copy)
+        except Exception:
+            # The nodes created so far (at any depth) are not part of any graph: do not leave
+            # them registered as users of outer-scope values of the original.
+            for new_node in self._created_nodes[first_new_node:]:
+                for i in range(len(new_node.inputs)):
+                    new_node.replace_input_with(i, None)
+            del self._created_nodes[first_new_node:]
+            raise
+
+    def _clone_graph(
+        self, graph: _core.Graph | _core.GraphView, deep_copy: bool = False
+    ) -> _core.Graph:
         input_values = [self._clone_or_get_value(v, deep_copy=deep_copy) for v in graph.inputs]
         initializers = [
             self._clone_or_get_value(v, deep_copy=deep_copy)
